@@ -57,8 +57,23 @@ def evaluate(ctx, pg, cfg, rng, probe=True):
     coal = conv.make_coalescent(pg, cfg)
     v = {}
 
+    # the composite reward OBJECTS are made once and, for n >= 4, used first on an auxiliary Coalescent of the same sample with
+    # ANOTHER coalescent model (a user who keeps his reward objects around): they must carry nothing over from there
+    pool = {}
+
     def bcr(x):
-        return R.ProductReward([R.BlockCountingUnitReward(), x])
+        key = type(x).__name__
+        if key not in pool:
+            pool[key] = R.ProductReward([R.BlockCountingUnitReward(), x])
+        return pool[key]
+
+    if n >= 4:
+        other = ('beta', 1.5, True) if cfg['model'][0] == 'kingman' else ('kingman',)
+        with U.Guard():
+            aux = conv.make_coalescent(pg, dict(cfg, model=other))
+            for rw in (R.TreeHeightReward(), R.TotalBranchLengthReward()):
+                aux.moment(1, (bcr(rw),), end_time=1.0)
+        ctx.count('reward-objects-used-on-another-model-first')
 
     with U.Guard() as g:
         v['T'] = float(coal.tree_height.t_max)
